@@ -74,6 +74,13 @@ class RunData:
                              ref_name="ref", est_name=f"est{k}")
             for k in (1, 2)
         ]
+        # a result with another title (evo_res then asks whether to go on)
+        self.results.append(
+            evo.main_rpe.rpe(copy.deepcopy(self.trajs[0]),
+                             copy.deepcopy(self.trajs[2]),
+                             M.PoseRelation.translation_part, 1.0,
+                             M.Unit.frames, ref_name="ref", est_name="est3",
+                             support_loop=True))
 
     def write_inputs(self, evo):
         fi = evo.file_interface
@@ -86,6 +93,7 @@ class RunData:
         fi.write_kitti_poses_file("in/est.kitti", self.trajs[1])
         fi.save_res_file("in/r1.zip", self.results[0])
         fi.save_res_file("in/r2.zip", self.results[1])
+        fi.save_res_file("in/r3.zip", self.results[2])
         with open("in/nw.json", "w") as f:
             json.dump({"no_warnings": True}, f)
 
@@ -299,7 +307,8 @@ class C17(Check):
         op = {"kind": kind}
         sub = rng.choice(["", "", "sub/"])
         if kind == "lib_tum":
-            op.update(path=sub + rng.choice(["out.tum", "a.tum"]),
+            op.update(path=sub + rng.choice(["out.tum", "a.tum", "my out.tum",
+                                             "tr\u00e4j.tum"]),
                       data=rng.randrange(3))
         elif kind == "lib_kitti":
             op.update(path=sub + rng.choice(["out.kitti", "a.kitti"]),
@@ -365,8 +374,11 @@ class C17(Check):
                 o["serialize_plot"] = sub + "plots.pkl"
             if not o:
                 o["save_table"] = "table.csv"
-            op.update(opts=o, inputs=["in/r1.zip", "in/r2.zip"],
-                      plot_split=False)
+            inputs = ["in/r1.zip", "in/r2.zip"]
+            if rng.random() < 0.35:
+                inputs = rng.choice([["in/r1.zip", "in/r3.zip"],
+                                     ["in/r3.zip", "in/r1.zip", "in/r2.zip"]])
+            op.update(opts=o, inputs=inputs, plot_split=False)
         elif kind == "cli_generate":
             op.update(path=sub + rng.choice(["cfg.json", "gen.json"]),
                       argv=rng.choice([["--align", "--plot_mode", "xz"],
@@ -391,6 +403,8 @@ class C17(Check):
         if kind.startswith("lib_"):
             op["confirm"] = (rng.random() < 0.75) if warn is None else warn
             op["as_path"] = (rng.random() < 0.5) if as_path is None else as_path
+            op["path_form"] = rng.choice(["plain", "plain", "dot", "abs",
+                                          "updir"])
         elif kind != "cli_generate":
             w = (rng.random() < 0.75) if warn is None else warn
             if not w:
@@ -398,6 +412,19 @@ class C17(Check):
                     op["no_warnings"] = True
                 else:
                     op["no_warnings_via_config"] = True
+        if kind.startswith("cli_") and kind != "cli_generate":
+            st = {}
+            if rng.random() < 0.3:
+                st["save_traj_in_zip"] = True
+            if rng.random() < 0.3:
+                st["table_export_data"] = rng.choice(["stats", "info",
+                                                      "error_array"])
+            if rng.random() < 0.2:
+                st["table_export_transpose"] = False
+            if rng.random() < 0.2:
+                st["plot_seaborn_enabled"] = False
+            if st:
+                op["settings"] = st
         # pre-existing targets
         exact, globs = expected_outputs(op)
         cands = list(exact)
@@ -432,6 +459,14 @@ class C17(Check):
                 answers.append("<INT>")
         if rng.random() < 0.1 and answer is None:
             answers = answers[:rng.randrange(len(answers))]  # script runs out
+        if kind == "cli_res" and "in/r3.zip" in op["inputs"]:
+            # differing titles: evo_res first asks whether to go on at all
+            # (once per mismatching file) - a question that is NOT about
+            # overwriting anything
+            nq = 2 if op["inputs"][0] == "in/r3.zip" else 1
+            op["title_questions"] = nq
+            answers = [("y" if rng.random() < 0.85 else "n")
+                       for _ in range(nq)] + answers
         op["answers"] = answers
         if rng.random() < 0.1 and pre and "y" in answers:
             tgt = rng.choice(sorted(pre))
@@ -483,6 +518,14 @@ class C17(Check):
         k = op["kind"]
 
         def P(rel):
+            form = op.get("path_form", "plain")
+            if form == "dot":
+                rel = "./" + rel
+            elif form == "abs":
+                rel = os.path.join(self.sb.root, rel)
+            elif form == "updir" and "/" in rel:
+                d, b = rel.split("/", 1)
+                rel = f"{d}/../{d}/{b}"
             return Path(rel) if op.get("as_path") else rel
 
         if k == "lib_tum":
@@ -614,6 +657,8 @@ class C17(Check):
                 before = sb.snapshot()
                 S["plot_split"] = bool(op.get("plot_split"))
                 S["plot_backend"] = "Agg"
+                for k, v in op.get("settings", {}).items():
+                    S[k] = v
                 fn = self._make_fn(op, data)
                 out = io.StringIO()
                 with contextlib.redirect_stdout(out), \
@@ -706,8 +751,11 @@ class C17(Check):
                     out.append(i)
             return out
 
+        # a 'y' that no "<path> exists, overwrite?" record announces only
+        # counts as a confirmation if the question itself is about overwriting
         unattributed_y = [i for i, path, a in prompts
-                          if a == "y" and path is None]
+                          if a == "y" and path is None
+                          and "overwrite" in str(events[i][1]).lower()]
         used_unattributed = 0
         declined_any = False
         for P, (old_bytes, old_ino) in sorted(before.items()):
